@@ -21,10 +21,19 @@
    operation ([number]: the sequential ones first, then lane by lane). *)
 From Verif Require Import Lib.Base Model.C02_Scheduler Model.C02_Script Model.C02_TableOps.
 
-Inductive bop := BoSched | BoCancel | BoRun.
+Inductive bop :=
+| BoSched | BoCancel | BoRun
+| BoCtx                   (* the context under which the jobs with ids below some bound were scheduled is cancelled *)
+| BoRelease (below : N).  (* ... and, any time later, the goroutine of such a job leaves through its
+                             context branch: removeJob, i.e. the name is removed if it still refers
+                             to that job (t_release) *)
 
 Definition bop_eqb (a b : bop) : bool :=
-  match a, b with BoSched, BoSched | BoCancel, BoCancel | BoRun, BoRun => true | _, _ => false end.
+  match a, b with
+  | BoSched, BoSched | BoCancel, BoCancel | BoRun, BoRun | BoCtx, BoCtx => true
+  | BoRelease x, BoRelease y => x =? y
+  | _, _ => false
+  end.
 
 Definition bname : name := 0.
 
@@ -54,6 +63,12 @@ Definition b_step (per : bool) (s : bstate) (o : bop) (id : N) : bstate * code :
       | (t', Some _) => ({| bs_table := t'; bs_runs := bs_runs s |}, Nil)
       | (_, None) => (s, ErrNoSuchJob)
       end
+  | BoCtx => (s, Nil)
+  | BoRelease below =>
+      (match holder s with
+       | Some j => if j <? below then {| bs_table := t_release (bs_table s) bname j; bs_runs := bs_runs s |} else s
+       | None => s
+       end, Nil)
   end.
 
 (* the jobs' time passes: the job in the table runs and leaves the table (one-off: timer branch;
